@@ -132,7 +132,10 @@ let f9_zone (e : zentry) : bool =
     (match Lazy.force e.sz with
      | Some s ->
        (match s.sz_footer with
-        | FRule _ -> (match List.rev s.sz_ast.a_times with [] -> true | t :: _ -> zlt t Z0)
+        | FRule _ ->
+          (* the sentinel lands BEHIND the generated window only when all 401 generated years precede 1970,
+             i.e. the last file transition is before 1570 (two days of margin; the exact test is by_model) *)
+          (match List.rev s.sz_ast.a_times with [] -> true | t :: _ -> zlt t (z_of_string "-12622953600"))
         | _ -> false)
      | None -> false) in
   (* the specification's reader may reject or read the bytes differently (e.g. junk behind the footer) while the
@@ -176,6 +179,28 @@ let run_case_inner (a : string array) : string =
       let sc = (match Lazy.force e.sz with Some s when Lazy.force e.wf -> spec_convert s l | _ -> None) in
       out m (match sc with Some v -> string_of_z v | None -> "undef") (sc <> None && valid_fields cs && in64 cs.fy)
     end
+  | "dsp" ->
+    (* C03, converse half: every instant returned for a UNIQUE or REPEATED civil second displays that civil second *)
+    let e = get a.(1) in let cs = fields_of a 2 in
+    let l = sec_of cs in
+    let shows z t = (match break_time z Z0 t with OK (al, _) -> if fields_eqb al.al_cs cs then "1" else "0" | Err er -> "ERR:" ^ string_of_err er) in
+    let m = with_model e (fun z ->
+      match make_time z Z0 cs with
+      | OK (c, _) ->
+        (match c.cl_kind with
+         | UNIQUE -> "U " ^ shows z c.cl_pre
+         | REPEATED -> "R " ^ shows z c.cl_pre ^ " " ^ shows z c.cl_post
+         | SKIPPED -> "S")
+      | Err er -> "ERR:" ^ string_of_err er) in
+    let sc = (match Lazy.force e.sz with Some s when Lazy.force e.wf -> Some (spec_civil s l) | _ -> None) in
+    let s = (match sc with
+             | Some c -> (match c.s_kind with SU -> "U 1" | SR -> "R 1 1" | SS -> "S" | SX -> "outside")
+             | None -> "notwf") in
+    let inner v = zlt min64 v && zlt v max64 in
+    let p = (match sc with
+             | Some c -> c.s_kind <> SX && valid_fields cs && in64 cs.fy && inner c.s_pre && inner c.s_post
+             | None -> false) in
+    out m s p
   | "nt" | "pt" ->
     let e = get a.(1) in let t = zi a 2 in
     let m = with_model e (fun z -> show_res show_tr (if a.(0) = "nt" then next_transition z t else prev_transition z t)) in
